@@ -176,7 +176,66 @@ func init() {
 		} else {
 			c.und("range-fork", "trie2.handleEdgeFork", "", "anchor not found")
 		}
+		// edge-classified: inside unset, an edge whose path does not match the boundary key is always compared with that key
+		// before the walker returns — a non-matching edge that lies inside the range (a whole leaf included) must be cut.
+		// Seeded change C10-L hoists the "leaf edge" case above the comparison and cuts a leaf only when it matches: a range
+		// with its first element left out still verifies.
+		for _, pk := range []string{"core/trie2"} {
+			f := p.Func(pk, "", "unset")
+			if f == nil {
+				c.und("range-fork", pk+".unset", "", "anchor not found")
+				continue
+			}
+			cmpBlock := map[*ssa.BasicBlock]bool{}
+			for _, s2 := range sitesOf(f) {
+				if s2.Callee != nil && s2.Callee.Name() == "Cmp" {
+					cmpBlock[s2.Block()] = true
+				}
+			}
+			k := 0
+			allInstrsOne(f, func(in ssa.Instruction) {
+				iff, ok := in.(*ssa.If)
+				if !ok {
+					return
+				}
+				cond := iff.Cond
+				neg := false
+				if u, isNot := cond.(*ssa.UnOp); isNot && u.Op == token.NOT {
+					cond, neg = u.X, true
+				}
+				call, isCall := cond.(*ssa.Call)
+				if !isCall || call.Call.StaticCallee() == nil || call.Call.StaticCallee().Name() != "PathMatches" {
+					return
+				}
+				k++
+				nb := iff.Block().Succs[1]
+				if neg {
+					nb = iff.Block().Succs[0]
+				}
+				// from the non-matching side, every way to a return passes a comparison of the edge with the boundary key
+				seen := map[*ssa.BasicBlock]bool{}
+				q := []*ssa.BasicBlock{nb}
+				bad := ""
+				for len(q) > 0 {
+					b := q[0]
+					q = q[1:]
+					if seen[b] || cmpBlock[b] {
+						continue
+					}
+					seen[b] = true
+					if exitKind(b) == "return" {
+						bad = p.Pos(posOf(b.Instrs[len(b.Instrs)-1], f))
+					}
+					q = append(q, b.Succs...)
+				}
+				c.check(bad == "", "range-fork", pk+".unset: non-matching edge classified", p.Pos(posOf(in, f)), "on the non-matching side the edge path is compared with the boundary key before the walker returns", "unset can return ("+bad+") for an edge that does not match the boundary key without comparing the edge with that key: an element that lies inside the range below a diverging edge is not cut, and a range with that element left out still verifies")
+			})
+			if k == 0 {
+				c.und("range-fork", pk+".unset", p.Pos(fnPos(f)), "no return under !PathMatches found")
+			}
+		}
 
+		c10EveryRequestedKey(c)
 		// rpc-one-view
 		for _, v := range []string{"rpc/v8", "rpc/v9", "rpc/v10"} {
 			f := p.Func(v, "Handler", "StorageProof")
@@ -736,5 +795,87 @@ func c10RangeUnsetDirty(c *Ctx) {
 	}
 	if n < 3 {
 		c.und("range-unset-dirty", "core/trie2 range walkers", "", fmt.Sprintf("only %d descents found", n))
+	}
+}
+
+// c10EveryRequestedKey: (every-requested-key) the storage-proof handlers prove every slot the request names: in
+// processStorageKeys the keys of an entry (a load of the entry's Keys field) are consumed — appended, merged, put into a set —
+// on every iteration of the loop over the requested entries; only the validation errors and loop control may stand in front
+// of that use. Seeded change C10-K de-duplicates contracts with a `seen` set and `continue`: the keys of a second entry for
+// the same contract are dropped, and the response lacks the path nodes that prove those slots.
+func c10EveryRequestedKey(c *Ctx) {
+	p := c.P
+	n := 0
+	for _, v := range []string{"rpc/v8", "rpc/v9", "rpc/v10"} {
+		f := p.Func(v, "", "processStorageKeys")
+		if f == nil {
+			c.und("every-requested-key", v+".processStorageKeys", "", "anchor not found")
+			continue
+		}
+		// loads of field Keys of the ranged entry that are used (not only measured with len)
+		found := false
+		allInstrsOne(f, func(in ssa.Instruction) {
+			fa, ok := in.(*ssa.FieldAddr)
+			var fv ssa.Value
+			if ok && fieldName(fa.X.Type(), fa.Field) == "Keys" {
+				fv = fa
+			} else if fld, ok2 := in.(*ssa.Field); ok2 && fieldName(fld.X.Type(), fld.Field) == "Keys" {
+				fv = fld
+			}
+			if fv == nil {
+				return
+			}
+			// consumers: any use other than len()/nil comparison
+			var uses []ssa.Instruction
+			var collect func(v ssa.Value, d int)
+			collect = func(v ssa.Value, d int) {
+				refs := v.Referrers()
+				if refs == nil || d > 3 {
+					return
+				}
+				for _, r := range *refs {
+					switch x := r.(type) {
+					case *ssa.UnOp:
+						collect(x, d+1)
+					case *ssa.Call:
+						if b, isB := x.Call.Value.(*ssa.Builtin); isB && b.Name() == "len" {
+							continue
+						}
+						uses = append(uses, r)
+					case *ssa.BinOp:
+						continue
+					case *ssa.Slice:
+						collect(x, d+1)
+					default:
+						if _, isDbg := r.(*ssa.DebugRef); !isDbg {
+							uses = append(uses, r)
+						}
+					}
+				}
+			}
+			collect(fv, 0)
+			for _, u := range uses {
+				if !inSameLoop(u.Block(), u.Block()) {
+					continue
+				}
+				found = true
+				n++
+				var bad []string
+				for _, cj := range p.mustHoldAt(u) {
+					for _, a := range cj.list() {
+						if strings.HasSuffix(a, " == nil)") || strings.HasSuffix(a, " != nil)") || strings.Contains(a, "jump$") || strings.Contains(a, "range") || strings.Contains(a, "len(") || strings.Contains(a, "φ") {
+							continue
+						}
+						bad = append(bad, a)
+					}
+				}
+				bad = uniq(bad)
+				c.check(len(bad) == 0, "every-requested-key", v+".processStorageKeys: keys of each entry", p.Pos(posOf(u, f)), "the keys of every requested entry are taken over (only validation and loop control guard it)",
+					"the storage keys of a requested entry are taken over only under "+strings.Join(bad, "; ")+": slots named by an entry that fails this test are missing from the proof")
+			}
+		})
+		if !found {
+			c.und("every-requested-key", v+".processStorageKeys", p.Pos(fnPos(f)), "no use of the entries' Keys inside the loop found")
+		}
 	}
 }
